@@ -25,7 +25,7 @@ ALLOPS = ops.BINARY + ops.UNARY
 def floors(tier):
     f = {'distinct_nontrivial': 1500 if tier == 'quick' else 80000, 'keyword_calls_compared': 400, 'positional_calls_compared': 400,
          'sympy_subs_compared': 400, 'mixed_partitions': 150, 'all_symbolic': 50, 'string_coefficients': 40,
-         'name_order_differs_from_key_order': 200, 'blades_dropped_by_simplification_recorded': 20}
+         'name_order_differs_from_key_order': 200, 'blades_dropped_by_simplification_recorded': 20, 'graded_mode_cases': 100}
     for o in ALLOPS:
         f['op_' + o] = 20 if tier == 'quick' else 100
     return f
@@ -36,11 +36,13 @@ def plan(tier, seed):
     if tier == 'quick':
         cfgs = gen.sig_orderings(1, 2)[::2] + rng.sample(gen.sig_orderings(3, 3), 9) + [gen.random_custom_cfg(rng, rng.choice((2, 3))) for _ in range(3)]
         cfgs += [{'named': '2DPGA'}, {'p': 3, 'q': 0, 'r': 0, 'opts': {'cse': False}}]
+        cfgs += [{'p': 3, 'q': 0, 'r': 0, 'opts': {'graded': True}}, {'p': 2, 'q': 0, 'r': 1, 'opts': {'graded': True}}, {'p': 2, 'q': 1, 'r': 0, 'opts': {'graded': True}}]
         per = 4
         nshards = 16
     else:
         cfgs = gen.sig_orderings(1, 3) + [gen.random_custom_cfg(rng, rng.choice((2, 3))) for _ in range(20)] + gen.NAMED[:2]
         cfgs += [dict(c, opts={'cse': False}) for c in rng.sample(gen.sig_orderings(2, 3), 6)]
+        cfgs += [dict(c, opts={'graded': True}) for c in gen.pqr_all(2, 3)]
         per = 60
         nshards = 64
     U = [{'cfg': c, 'per_op': per} for c in cfgs]
@@ -72,7 +74,18 @@ def one_case(ctx, alg, cfg, name, op):
     arity = 2 if op in ops.BINARY else 1
     composite = op in ops.COMPOSITE_BIN or op in ops.COMPOSITE_UN
     cap = 3 if composite else 4
-    if op == 'sqrt':
+    graded = bool(cfg.get('opts', {}).get('graded'))
+    if graded:
+        # graded mode: operands hold complete grades in canonical order
+        keysets = []
+        for _ in range(arity):
+            gs = (0, alg.d) if op == 'sqrt' else tuple(sorted(rng.sample(range(alg.d + 1), rng.randint(1, 2))))
+            ks = alg.indices_for_grades[gs]
+            if len(ks) > 5:
+                ks = alg.indices_for_grades[(gs[0],)]
+            keysets.append(ks)
+        ctx.count('graded_mode_cases')
+    elif op == 'sqrt':
         nonsc = [k for k in canon if k]
         keysets = [(0, rng.choice(nonsc))]
     else:
